@@ -25,6 +25,7 @@ ASSUMPTIONS = ['ref_continuify in this file is the set-based reading of '
                'unary chains']
 WATCHDOG = {'quick': 600, 'thorough': 3600}
 LONG_SENTENCES = 3      # floor for the stratum the runner adds (gen.maybe_long)
+PIPELINE_CASES = {'quick': 500, 'thorough': 20000}   # vt/pipeline.py
 MIN = {'quick': {'distinct': 1000,
                  'hooks': {'transform.boyd_split': 3000,
                            'transform.raising': 3000},
